@@ -99,9 +99,15 @@ def discharge(ob, timeout_ms, use_cvc5=True):
   if ob.verdict is not None:
     return
   t0 = time.time()
-  _DEADLINE[0] = t0 + 4.0 * timeout_ms / 1000.0
+  ncases = 2 ** len(ob.cases) if ob.cases else 0
+  _DEADLINE[0] = t0 + (4.0 + ncases) * timeout_ms / 1000.0
   pivots = list(getattr(ob, 'pivots', ()) or ())
-  r, s = _prove_split(ob.pc, ob.goal, timeout_ms, pivots)
+  if ob.cases:
+    # obligations with a declared case split: one short attempt on the whole goal, then the
+    # cases (splitting conjuncts first would spend the budget on the unsplit formula)
+    r, s = _check(ob.pc, ob.goal, min(timeout_ms, 4000))
+  else:
+    r, s = _prove_split(ob.pc, ob.goal, timeout_ms, pivots)
   ob.solver = 'z3'
   if r == z3.unknown and ob.cases:
     # exhaustive case split on the contract's atoms; each atom is replaced by its truth value
